@@ -261,6 +261,21 @@ func SimC13(c *CheckCtx, i int, r *Rng) error {
 		eps, args.Entrypoint = all, spell(r, m, all)
 		c.Env.Stats.Add("probe/two-module-world", 1)
 	}
+	if i%8 == 6 {
+		// two roots of which the first imports the second, the second named by one of its files (a `file=`
+		// query): go/packages then reports the importer first
+	search:
+		for pa, p := range m.Pkgs {
+			for _, pb := range p.Imports {
+				if q := m.Pkgs[pb]; !p.InSub && !q.InSub && p.Dir != "" && len(q.Files) > 0 {
+					args.Entrypoint = []string{"./" + p.Dir, "file=" + filepath.Join(q.Dir, q.Files[0].Name)}
+					eps = []int{pa, pb}
+					c.Env.Stats.Add("probe/file-query-entrypoint", 1)
+					break search
+				}
+			}
+		}
+	}
 	sc := &Scenario{Kind: "universe", Module: m, Base: base, LinkedRoot: i%4 == 2}
 	for _, s := range []string{"asc", "desc"} {
 		sc.Variants = append(sc.Variants, Variant{Name: "sched:" + s, Ops: []Op{{Kind: "run", Run: &RunOp{Args: args, Sched: schedOf(s, 0)}}}})
